@@ -9,12 +9,19 @@ import (
 
 func buildLineFilter(stage *logql.LineFilter) (Processor, error) {
 	if stage.IP {
-		matcher, err := buildIPMatcher(stage.Op, stage.Value)
+		// Negation applies to the whole line: a line passes "!= ip(...)" if none
+		// of its addresses match, including when it has no address at all.
+		op, negate := stage.Op, false
+		if op == logql.OpNotEq {
+			op, negate = logql.OpEq, true
+		}
+
+		matcher, err := buildIPMatcher(op, stage.Value)
 		if err != nil {
 			return nil, err
 		}
 
-		return &IPLineFilter{matcher: matcher}, nil
+		return &IPLineFilter{matcher: matcher, negate: negate}, nil
 	}
 
 	matcher, err := buildStringMatcher(stage.Op, stage.Value, stage.Re, false)
@@ -39,10 +46,16 @@ func (lf *LineFilter) Process(_ otelstorage.Timestamp, line string, _ LabelSet) 
 // IPLineFilter looks for IP address in a line and applies matcher to it.
 type IPLineFilter struct {
 	matcher IPMatcher
+	negate  bool
 }
 
 // Process implements Processor.
 func (lf *IPLineFilter) Process(_ otelstorage.Timestamp, line string, _ LabelSet) (_ string, keep bool) {
+	return line, lf.match(line) != lf.negate
+}
+
+// match reports whether line contains an address accepted by matcher.
+func (lf *IPLineFilter) match(line string) bool {
 	for i := 0; i < len(line); {
 		c := line[i]
 		if !isHexDigit(c) && c != ':' {
@@ -55,7 +68,7 @@ func (lf *IPLineFilter) Process(_ otelstorage.Timestamp, line string, _ LabelSet
 
 			ip, err := netip.ParseAddr(capture)
 			if err == nil && lf.matcher.Match(ip) {
-				return line, true
+				return true
 			}
 			continue
 		}
@@ -64,14 +77,14 @@ func (lf *IPLineFilter) Process(_ otelstorage.Timestamp, line string, _ LabelSet
 
 			ip, err := netip.ParseAddr(capture)
 			if err == nil && lf.matcher.Match(ip) {
-				return line, true
+				return true
 			}
 			continue
 		}
 		i++
 	}
 
-	return line, false
+	return false
 }
 
 func tryCaptureIPv4(s string) (string, bool) {
